@@ -6,6 +6,7 @@ R16.2 Lebedev tables and orbit generator: weights sum to 1 with the orbit multip
       the literal A1/A2/A3 orbits are the octahedral orbits, and the generator/table contract of the C orbits holds
 R16.3 modulus conversions: every branch of moduliToC reproduces (E, nu, G) from a ground-truth pair (sympy)
 R16.4 Voigt index maps (tensor <-> 6x6, tensor <-> vector) are inverse tables
+R16.10 weight typing of the 6x6 / 6-vector forms: contractions pair a plain axis with a shear-weighted one, inverses are un-weighted, conversions receive plain forms
 R16.5 sibling agreement: the fourth-rank and the 6x6 energy routines are the same operator expression (non-commutative normal form)
 """
 from __future__ import annotations
@@ -433,15 +434,31 @@ def r164(repo, ctx):
 
 
 # ---------------------------------------------------------------------------------------------- R16.5
+def _voigt_weight_names(repo):
+    """module-level names of ElasticFactors bound to the shear-weight vector np.array([1, 1, 1, 2, 2, 2])"""
+    out = set()
+    for st in repo.module(EF).tree.body:
+        if isinstance(st, ast.Assign) and isinstance(st.value, ast.Call) and (U.call_name(st.value) or '') == 'np.array' and st.value.args \
+                and isinstance(st.value.args[0], (ast.List, ast.Tuple)) and [U.const_value(x) if U.is_const(x) else None for x in st.value.args[0].elts] == [1, 1, 1, 2, 2, 2]:
+            out |= {t.id for t in st.targets if isinstance(t, ast.Name)}
+    return out
+
+
 def _operator_expr(repo, func, atom_of):
     import sympy as sp
     env = {}
+    weights = _voigt_weight_names(repo)
 
     def tr(e):
         c = U.chain(e)
         a = atom_of(e)
         if a is not None:
             return a
+        # the shear weights are bookkeeping of the 6x6 representation (decided by R16.10): identity at the operator level
+        if isinstance(e, ast.Name) and e.id in weights:
+            return sp.Integer(1)
+        if isinstance(e, ast.Call) and (U.call_name(e) or '') == 'np.outer' and len(e.args) == 2 and all(isinstance(x, ast.Name) and (x.id in weights or env.get(x.id) == 1) for x in e.args):
+            return sp.Integer(1)
         if isinstance(e, ast.Name):
             if e.id in env:
                 return env[e.id]
@@ -649,6 +666,56 @@ def r169(repo, ctx, index):
               f'Dijkl is homogeneous of degree {d} in the radii instead of 0: the strain energy does not scale with the volume', construct=f'Dijkl: degree {d}')
 
 
+def r1610(repo, ctx):
+    """6x6 / 6-vector forms of the elastic tensors: every contraction pairs one plain axis with one axis carrying the shear
+    weights (1,1,1,2,2,2), the inverse of a plain 6x6 form is un-weighted before it is used as a plain form, and only plain
+    forms are converted back to tensors.  Necessary for "the same whether computed with 6x6 or fourth-rank tensors" and for
+    the homogeneous-inclusion limit (which goes through invert4rankTensor)."""
+    from .. import voigt as V
+    weights = _voigt_weight_names(repo)
+    field_tags = {'cMatrix_2nd': ('p', 'p'), 'cPrec_2nd': ('p', 'p')}
+    RELEVANT = V.TO_PLAIN_VEC | V.TO_PLAIN_MAT | V.NEED_PLAIN_VEC | V.NEED_PLAIN_MAT
+    funcs = []
+    for q, f in repo.functions(EF):
+        names = {(U.call_name(c) or '').split('.')[-1] for c in U.calls(f)}
+        uses_2nd = any(isinstance(n, ast.Attribute) and n.attr in field_tags and isinstance(n.ctx, ast.Load) for n in ast.walk(f))
+        if f.name in RELEVANT:
+            continue
+        if names & RELEVANT or uses_2nd:
+            funcs.append((q, f))
+    ctx.floor('R16.10', len(funcs), 4)
+    # first pass: argument tags at the call sites of the module's own functions
+    site_tags = {}
+    for q, f in funcs:
+        tg = V.Tagger(weights, field_tags)
+        try:
+            tg.function(f)
+        except (V.Unknown, V.Mismatch):
+            pass
+        for name, tags in tg.calls:
+            site_tags.setdefault(name, []).append(tags)
+    n_con = 0
+    for q, f in funcs:
+        pn = [p_ for p_ in U.params(f) if p_ != 'self']
+        ptags = {}
+        for tags in site_tags.get(f.name, []):
+            for p_, t_ in zip(pn, tags):
+                if t_ != V.SCALAR:
+                    ptags[p_] = t_
+        tg = V.Tagger(weights, field_tags)
+        try:
+            tg.function(f, ptags)
+        except V.Mismatch as e:
+            ctx.violation('R16.10', EF, q, e.node, f'{U.src(e.node)[:70]}: {e.msg}', construct=f'{q}: {U.src(e.node)[:60]}')
+            continue
+        except V.Unknown as e:
+            ctx.undecided('R16.10', EF, q, f, f'weight typing left its fragment: {e}')
+            continue
+        n_con += tg.n_contractions
+        ctx.ok('R16.10', EF, q, f, f'{tg.n_contractions} contraction(s) of 6x6 / 6-vector forms pair a plain axis with a weighted one; conversions back to tensors receive plain forms', construct=f'{q}: Voigt weights')
+    ctx.analysed['scenarios'] += n_con
+
+
 def check(repo, ctx, index, purity):
     ctx.explanation = EXPLANATION
     ctx.assumptions += ['exact trigonometric evaluation by sympy', 'positivity / scaling / rotation invariance / closed forms are numeric and not decided']
@@ -660,3 +727,4 @@ def check(repo, ctx, index, purity):
     r167(repo, ctx)
     r168(repo, ctx)
     r169(repo, ctx, index)
+    r1610(repo, ctx)
